@@ -15,7 +15,8 @@
 (***************************************************************************)
 EXTENDS Integers, Sequences, FiniteSets, TLC, Json
 
-CONSTANT MaxCalls
+CONSTANTS MaxCalls,    \* longest history
+          MaxFaults    \* how many calls of one history may have a fault armed
 
 Calls == {"MakeAssertionEl", "MakeResponse", "PostBinding", "WriteResponse"}
 
@@ -54,6 +55,7 @@ Post(F) == LET m == IF rEl = "nil" THEN MkR(F) ELSE [ok |-> TRUE, a |-> aEl, r |
 Call(c, F) ==
   /\ Len(hist) < MaxCalls
   /\ F = "enc" => enc               \* that fault is a failure of the encryption step
+  /\ F # "none" => Cardinality({ k \in DOMAIN hist : hist[k].f # "none" }) < MaxFaults
   /\ LET res == CASE c = "MakeAssertionEl" -> LET a == MkA(F) IN [out |-> IF a.ok THEN "ok" ELSE "err", a |-> a.a, r |-> rEl, content |-> "none", fired |-> a.fired]
                   [] c = "MakeResponse"    -> LET m == MkR(F) IN [out |-> IF m.ok THEN "ok" ELSE "err", a |-> m.a, r |-> m.r, content |-> "none", fired |-> m.fired]
                   [] OTHER                 -> Post(F)
